@@ -129,6 +129,48 @@ func c13Scenarios(tier string) []*Scenario {
 			return "", "", fmt.Sprint(len(dgs), " datagrams")
 		}
 		out = append(out, sc0)
+		// M4: two goroutines allocate at the same time: the same new name (one interner entry) with two tag sets that
+		// share one key in the reporter's tag cache ({"a":"b=c"} and {"a=b":"c"} hash alike). Each value must come
+		// out with the tags it was allocated with, and nobody may be left waiting for a lock.
+		sc4 := &Scenario{Property: "C13", Name: "M4-concurrent-allocation-colliding-tag-sets-" + kind, BoundSet: true, Bound: tierInt(tier, 2, 3), FreeBound: tierInt(tier, 2, 3), Shards: 4}
+		sc4.Body = func(x *Run) {
+			s := newFastSink()
+			x.Vals["sink"] = s
+			x.Cleanup = append(x.Cleanup, s.close)
+			x.Vals["tmin"] = rt.NowNanos()
+			r, err := m3.NewReporter(m3.Options{HostPorts: []string{s.addr}, Service: "svc", Env: "test", CommonTags: c13CommonTags(0), Protocol: m3Proto(kind), MaxQueueSize: 8})
+			if err != nil {
+				x.failf("new-reporter", "%v", err)
+				return
+			}
+			t1 := rt.GoNamed("alloc1", func() { r.AllocateCounter("n", map[string]string{"a": "b=c"}).ReportCount(1) })
+			t2 := rt.GoNamed("alloc2", func() { r.AllocateCounter("n", map[string]string{"a=b": "c"}).ReportCount(2) })
+			t1.Join()
+			t2.Join()
+			x.Vals["tmax"] = rt.NowNanos()
+			if err := r.Close(); err != nil {
+				x.failf("close-error", "%v", err)
+			}
+			pre, bcl, bdet := closeBarrier(kind, []*fastSink{s}, 2)
+			x.Vals["pre"] = pre[0]
+			if bcl != "" {
+				x.failf(bcl, "%s", bdet)
+			}
+		}
+		sc4.Check = func(x *Run, o *rt.Outcome) (string, string, string) {
+			s := x.Vals["sink"].(*fastSink)
+			dgs := s.readAvailable(append([][]byte{}, x.Vals["pre"].([][]byte)...))
+			got, cl, det := m3Collect(kind, dgs, x.Vals["tmin"].(int64), x.Vals["tmax"].(int64))
+			if cl != "" {
+				return cl, det, "viol"
+			}
+			want := []string{wantKey("n", 1, 1, 0, 0, map[string]string{"a": "b=c"}), wantKey("n", 1, 2, 0, 0, map[string]string{"a=b": "c"})}
+			if cl, det := compareMultisets(got, want); cl != "" {
+				return cl, det, "viol"
+			}
+			return "", "", fmt.Sprint(len(dgs), " datagrams")
+		}
+		out = append(out, sc4)
 	}
 	return out
 }
